@@ -45,6 +45,28 @@ def run_case(ctx, gd, ev, cls, g=None, cards=None):
              sample={"graph": gd, "event": gev.key(ev), "class": cls, "answer": str(res), "lines": sorted(lines)})
 
 
+def planted_orphan_label(rng):
+    """b -> z -> y <- d, f -> y, e <-> d <-> z <-> y (names shuffled, a few extra edges), and the event
+    [e_{b,d}, y_{b,f}] (+ optionally d observed, mixed polarities): the world {b, d} is irrelevant to e's own variable except
+    through labels that survive on other nodes of the counterfactual graph after the two worlds are merged."""
+    nm = gg.names(6, rng, unsorted=rng.random() < 0.3)
+    rng.shuffle(nm)
+    b, z, y, d, f, e = nm
+    di = [[b, z], [z, y], [d, y], [f, y]]
+    bi = [[e, d], [d, z], [z, y]]
+    if rng.random() < 0.3:
+        di.append(rng.choice([[b, e], [f, z], [b, d]]))
+    if rng.random() < 0.2:
+        bi.append(rng.choice([[e, y], [b, f]]))
+    gd = {"nodes": sorted(nm) if rng.random() < 0.5 else nm, "di": di, "bi": bi, "hostile": "planted-orphan-label"}
+    val = lambda: rng.random() < 0.5  # noqa: E731
+    sd = val()
+    ev = [[e, [[b, False]] + [[d, sd]], val()], [y, [[b, False], [f, val()]], val()]]
+    if rng.random() < 0.5:
+        ev.append([d, [], not sd if rng.random() < 0.6 else sd])
+    return gd, ev
+
+
 def run_shard(ctx):
     gg.ALLOW_ODD = True  # node names that are not Python identifiers are node names like any other
     mon_cf.install_idstar()
@@ -54,6 +76,11 @@ def run_shard(ctx):
     for i in range(ctx.share({"quick": 30000, "thorough": 200000}[ctx.tier])):
         n = rng.choice([2, 3, 3, 4, 4, 4] + ([5] if ctx.tier == "thorough" else []))
         gd = gg.random_admg(rng, n)
+        if i % 25 == 9:
+            gd, ev = planted_orphan_label(rng)
+            classes["planted_orphan_label"] = classes.get("planted_orphan_label", 0) + 1
+            run_case(ctx, gd, ev, "planted_orphan_label")
+            continue
         ev, cls = gev.random_event(rng, gd)
         if not ev or cls == "contradictory_pair":
             continue
